@@ -298,7 +298,7 @@ chk("C21", "model_checking",
     "DESIGN.md section 4, C21")
 
 
-chk("C22", "fault_enumeration",
+chk("C22", "model_checking",
     "spec/IOFaults.tla specifies a program of I/O operations whose outcome the environment decides through the target "
     "each operation is pointed at (operation x target table of 44 entries in spec/IOFaultOps.tla: ENOENT, EISDIR, "
     "ENOTDIR, EEXIST under mode x, ENOSPC via /dev/full, garbage / short / empty pcap content, consumed or garbage "
